@@ -69,6 +69,64 @@ def run_history(nn, events, *, readings=None, models=None, true_times=None, seri
     return pts, L, V, H, ids
 
 
+def run_history_sim(nn, events, models, true_times, serialise=False):
+    """The same history executed by entities inside a real Simulation: every node is an Entity that
+    owns a LamportClock, a VectorClock and a HybridLogicalClock reading a NodeClock(model) which is
+    fed by the simulation clock (Entity.set_clock forwarding, as node_clock.py prescribes).  Event j
+    is delivered to its node at true_times[j]; same-instant events run in creation order."""
+    from happysimulator.core.entity import Entity
+    from happysimulator.core.event import Event
+    from happysimulator.core.simulation import Simulation
+
+    ids = [nid(n) for n in range(1, nn + 1)]
+    msgs, rec = {}, {}
+
+    class Node(Entity):
+        def __init__(self, n):
+            super().__init__(nid(n))
+            self.n = n
+            self.lam = LamportClock()
+            self.vc = VectorClock(nid(n), list(ids))
+            self.nc = NodeClock(models[n - 1])
+            self.hlc = HybridLogicalClock(nid(n), physical_clock=self.nc)
+
+        def set_clock(self, clock):
+            super().set_clock(clock)
+            self.nc.set_clock(clock)
+
+        def handle_event(self, event):
+            md = event.context["metadata"]
+            j, k, s = md["j"], md["k"], md["s"]
+            p = self.nc.now.nanoseconds
+            if k == LOCAL:
+                self.lam.tick()
+                self.vc.tick()
+                ts = self.hlc.now()
+            elif k == SEND:
+                lt, vs, ts = self.lam.send(), self.vc.send(), self.hlc.send()
+                msgs[j] = (lt, vs, HLCTimestamp.from_dict(ts.to_dict()) if serialise else ts)
+            else:
+                lt, vs, rts = msgs[s]
+                self.lam.receive(lt)
+                self.vc.receive(dict(vs))
+                self.hlc.receive(rts)
+                ts = self.hlc._last
+            rec[j] = (p, self.lam.time, self.vc.snapshot(), ts)
+            return None
+
+    nodes = [Node(n) for n in range(1, nn + 1)]
+    sim = Simulation(start_time=Instant.Epoch, end_time=Instant(max(true_times) + 10), sources=[], entities=nodes)
+    sim.schedule([Event(time=Instant(true_times[j - 1]), event_type="ev", target=nodes[n - 1],
+                        context={"metadata": {"j": j, "k": k, "s": s}})
+                  for j, (n, k, s) in enumerate(events, start=1)])
+    sim.run()
+    if len(rec) != len(events):
+        raise RuntimeError(f"simulation delivered {len(rec)} of {len(events)} history events")
+    order = range(1, len(events) + 1)
+    return ([rec[j][0] for j in order], [rec[j][1] for j in order], [rec[j][2] for j in order],
+            [rec[j][3] for j in order], ids)
+
+
 def to_trace(tid, nn, events, pts, L, V, H, ids):
     """Physical nanoseconds -> order-preserving ranks (32-bit TLC integers)."""
     vals = sorted({0, *pts, *(h.physical_ns for h in H)})
@@ -91,7 +149,8 @@ def to_trace(tid, nn, events, pts, L, V, H, ids):
             "vm": vm, "hm": hm}
 
 
-_EV = re.compile(r'k \|-> "(\w+)",\s*lam \|-> \d+,\s*n \|-> (\d+),\s*p \|-> (\d+),\s*s \|-> (\d+)')
+_REC = re.compile(r"\[([^\[\]]*)\]")
+_F = {f: re.compile(r"(?:^|[\s,])" + f + r' \|-> "?(\w+)"?') for f in ("n", "k", "s", "p")}
 
 
 def histories_from_dump(path, length):
@@ -101,10 +160,17 @@ def histories_from_dump(path, length):
     def flush():
         if not buf:
             return None
-        m = _EV.findall(" ".join(buf))
-        if len(m) != length:
+        text = " ".join(buf)
+        a = text.find("ev = ")
+        b = text.find("/\\", a + 1)
+        recs = _REC.findall(text[a:b if b > 0 else len(text)])
+        if len(recs) != length:
             return None
-        return [(int(n), KIND[k], int(s), int(p)) for (k, n, p, s) in m]
+        out = []
+        for r in recs:
+            f = {k: rx.search(r).group(1) for k, rx in _F.items()}
+            out.append((int(f["n"]), KIND[f["k"]], int(f["s"]), int(f["p"])))
+        return out
 
     with open(path) as f:
         for ln in f:
